@@ -157,7 +157,7 @@ uint64_t rtosc_float2secfracs(float secfracsf)
        <=> secfracs = base_without_comma * 2^(32-exp-4*hexdigits_after_comma)
     */
     int lshift = 32-exp-(hexdigits_after_comma<<2);
-    assert(lshift > 0);
+    assert(lshift >= 0);
     secfracs <<= lshift;
     assert((secfracs & 0xFFFFFFFF) == secfracs);
 
